@@ -759,7 +759,33 @@ pub fn gen_bulk(prop: &str, seed: u64) -> Plan {
         ops.push(Op::Get { k: base + rng.below(n), hold: 0 });
     }
     let universe: Vec<u64> = (0..8).map(|i| base + i * (n / 8)).collect();
-    Plan { prop: prop.into(), family: "L-bulk".into(), seed, cfg, sim, clients: vec![ops], chaos: vec![], finale: Finale::None, universe, tags: vec!["lockstep".into(), "under_capacity".into(), "fault_free".into(), "bulk".into()] }
+    // over capacity for the properties that are about eviction: thousands of admissions with
+    // eviction rounds instead of a roomy cache
+    let mut tags = vec!["lockstep".to_string(), "fault_free".into(), "bulk".into()];
+    if matches!(prop, "C01" | "C06" | "C07" | "C08" | "C17") && rng.chance(1, 2) {
+        let item = if cfg.ignore_internal_cost { 0 } else { 72 };
+        cfg.max_cost = (n as i64 / 4) * (item + 2);
+        cfg.metrics = true;
+        tags.push("over_capacity".into());
+    } else {
+        tags.push("under_capacity".into());
+    }
+    Plan { prop: prop.into(), family: "L-bulk".into(), seed, cfg, sim, clients: vec![ops], chaos: vec![], finale: Finale::None, universe, tags }
+}
+
+/// Sustained-load family (C05): several clients insert back to back while the eager clock lets
+/// virtual time run ahead, so cleanup ticks become due in the middle of the traffic.
+pub fn gen_load(prop: &str, seed: u64) -> Plan {
+    let mut pf = PProfile { clients: (3, 4), keys: (6, 24), ops: (110, 220), lookup_pct: 5, remove_pct: 3, if_present_pct: 0, wait_pct: 0, ttl_pct: 60, over_capacity_pct: 40, collide_pct: 0, sleeps: false, faulty_pct: 0, barrier_every: (200, 300), ..PProfile::default() };
+    pf.coster_pct = 0;
+    let mut p = gen_p_family(prop, seed, &pf);
+    let mut rng = Rng::new(seed ^ 0x10ad);
+    p.sim.eager_clock_permille = *rng.pick(&[60u32, 120, 250]);
+    p.cfg.cleanup_ms = *rng.pick(&[100u64, 250, 500]);
+    p.family = "P-load".into();
+    p.tags.push("faulty".into());
+    p.tags.push("tick_events".into());
+    p
 }
 
 /// Fault enumeration for C10/C11/C12: a small plan with exactly one chaos clear()/close() whose
@@ -806,10 +832,11 @@ pub fn gen_plan(prop: &str, seed: u64, variant: u64) -> Plan {
     let over = std::env::var("DST_GEN").ok();
     let prop = over.as_deref().unwrap_or(prop);
     match prop {
-        "C04" | "C05" | "C06" | "C01" | "C17" if variant % 193 == 7 => gen_bulk(prop, seed),
+        "C04" | "C05" | "C06" | "C01" | "C17" | "C07" | "C08" if variant % 193 == 7 => gen_bulk(prop, seed),
         "C03" if variant % 4 == 2 => gen_p_family(prop, seed, &PProfile { ttl_pct: 70, lookup_pct: 45, over_capacity_pct: 30, remove_pct: 8, ..PProfile::default() }),
         "C04" if variant % 4 == 2 => gen_p_family(prop, seed, &PProfile { over_capacity_pct: 0, collide_pct: 0, ttl_pct: 30, remove_pct: 10, if_present_pct: 5, wait_pct: 5, ..PProfile::default() }),
         "C03" | "C04" => gen_ttl_family(prop, seed, variant % 4 == 3),
+        "C05" if variant % 48 == 6 => gen_load(prop, seed),
         "C05" if variant % 4 == 2 => gen_p_family(prop, seed, &PProfile { over_capacity_pct: 20, collide_pct: 5, ttl_pct: 70, remove_pct: 8, lookup_pct: 25, faulty_pct: 0, ..PProfile::default() }),
         "C05" => gen_ttl_family(prop, seed, variant % 2 == 1),
         "C09" if variant % 4 == 2 => gen_p_family(prop, seed, &PProfile { clients: (2, 4), keys: (1, 3), validator_pct: 100, if_present_pct: 25, lookup_pct: 15, remove_pct: 8, over_capacity_pct: 20, collide_pct: 0, ttl_pct: 25, ops: (6, 24), ..PProfile::default() }),
